@@ -344,8 +344,12 @@ fn check_t2(scn: &Scenario, stats: &mut Stats) -> Vec<Violation> {
     let mut any_diff_probe = false;
     for flags in &spec.modes {
         let mut first: Option<(u64, String)> = None;
-        for &e in &scn.entropy {
-            let call = t2::RvaCall { sandbox: &sb, base: &scn.world.base, flags, entropy: e, plan: &spec.plan, profile: &spec.profile, force_color: false, cpu_seconds: 10, raw_base: None, stdout_fault: None, fifos: vec![] };
+        for (k, &e) in scn.entropy.iter().enumerate() {
+            // separate processes differ in more than their entropy: each names the base file in
+            // another way (absolute, relative, ./, from the parent directory, with // and /./)
+            let arg_style = (k % 5) as u8;
+            stats.inc(&format!("t2_invocation_style:{arg_style}"));
+            let call = t2::RvaCall { sandbox: &sb, base: &scn.world.base, flags, entropy: e, plan: &spec.plan, profile: &spec.profile, force_color: false, cpu_seconds: 10, raw_base: None, stdout_fault: None, fifos: vec![], arg_style };
             let Ok(run) = t2::run_rva(&call) else {
                 stats.inc("harness:spawn_failed");
                 return out;
